@@ -138,6 +138,27 @@ func (r *GoStructRegistryType) RegisterUserdef(
 	}
 }
 
+// LookupByGoType finds the registered type whose factory makes values of
+// the Go type typ (a pointer-to-struct type). The registry holds each type
+// under several keys and a Go type may be registered under several names;
+// the choice is made deterministic by taking the smallest registered name.
+func (r *GoStructRegistryType) LookupByGoType(env *Zlisp, typ reflect.Type) (*RegisteredType, error) {
+	var best *RegisteredType
+	for _, factory := range r.Registry {
+		if best != nil && factory.RegisteredName >= best.RegisteredName {
+			continue
+		}
+		st, err := factory.Factory(env, nil)
+		if err != nil {
+			return nil, err
+		}
+		if st != nil && reflect.ValueOf(st).Type() == typ {
+			best = factory
+		}
+	}
+	return best, nil
+}
+
 func (r *GoStructRegistryType) Lookup(name string) *RegisteredType {
 	return r.Registry[name]
 }
